@@ -91,6 +91,7 @@ REWRITES = {
     "doc_tokens_from": ("re", r"&doc\.tokens\[gd\.offset\.\.\]", "slice_from(&doc.tokens, gd.offset)", "&s[a..] (RangeFrom indexing) -> shim, panics iff a > len"),
     "lookup_cloned": ("re", r"doc\.table\.lookup\(&name\.value\)\.cloned\(\)", "option_cloned(doc.table.lookup(&name.value))", "Option<&T>::cloned -> shim; derived Clone of GlobalEntry is structural (R1)"),
     "opt_datatype_ne": ("re", r"\bt\.data_type != v\.data_type\b", "!opt_datatype_eq(&t.data_type, &v.data_type)", "derived PartialEq of Option<DataType> written as the structural comparison it resolves to (R1)"),
+    "map_entry_from": ("re", r"\.map\(Entry::from\)", ".map(|e_| Entry::from(e_))", "a function path passed to Option::map written as the closure it denotes (eta expansion, R14)"),
     "box_as_ref": ("re", r"\bboxed\.as_ref\(\)", r"&**boxed", "Box::as_ref on &Box<T> replaced by its std body `&**self` (no vstd spec; generic over the allocator)"),
     "self_name_clone_to_callee": ("re", r"self\.name\.value\.clone\(\)", r"string_clone(&callee.value)", "captured field path `self.name` of the lifted loop body becomes the parameter `callee` (R6); String::clone -> shim"),
     "ref_ne": ("re", r"\barg_type != param_type\b", r"!datatype_eq(arg_type, param_type)", "`!=` on two `&DataType` (PartialEq for references) written as the derived comparison it resolves to"),
